@@ -14,7 +14,7 @@ ROOT = os.path.dirname(os.path.dirname(os.path.abspath(__file__)))
 
 BASE_FILES = ["Base/QcLib.v", "Base/Vec.v", "Model/Econ.v", "Model/EconBase.v", "Model/Init.v",
               "Model/Events.v", "Model/Sim.v", "Model/Tracker.v", "Model/Ingest.v", "Spec/Statements.v",
-              "Corr/Check.v", "Corr/CheckEv.v", "Corr/CheckInit.v", "Model/Create.v", "Corr/CheckCreate.v", "Gen/Facts.v"]
+              "Corr/Check.v", "Corr/CheckEv.v", "Corr/CheckInit.v", "Model/Create.v", "Corr/CheckCreate.v", "Corr/CheckStep.v", "Gen/Facts.v"]
 
 COMMON_TRUSTED = [
     "Coq 8.16.1 kernel and its vm_compute evaluator (no native_compute)",
@@ -27,6 +27,9 @@ COMMON_TRUSTED = [
 ECON_OBS = ["cap", "opt", "constraints", "production", "limiting", "stock.crash", "deliver.matrix",
             "stock.update", "deliver.unmet", "deliver.rebuild_prod", "orders", "overprod", "stock.infinite",
             "distribute.pre", "dtot.coherent", "phase.overprod", "phase.alpha_kept"]
+STEP_OBS = ["step.outcome", "step.alpha", "step.stock", "step.demand", "step.count", "step.production", "step.unmet", "step.clock",
+            "step.status", "step.rid", "step.dmg", "step.hdmg", "step.arb", "step.ledger_i", "step.ledger_h"]
+ECON_OBS = ECON_OBS + STEP_OBS
 INIT_OBS = ["init.X0", "init.Z0", "init.Y0", "init.tech", "init.zdist", "init.mask", "init.inv_duration",
             "init.restoration", "init.capital", "init.stock", "init.scalars"]
 INGEST_OBS = ["ingest.Z", "ingest.Y", "ingest.x", "ingest.capital"]
@@ -86,14 +89,15 @@ REGISTRY.update({
                           "C10_prefix_holds", "C10_session_holds", "C10_late_registration_holds", "C10_late_registration_any_id_refuted"],
                 corr=["sched.status", "sched.rid", "sched.count", "delta.total", "rec.status", "reb.status",
                       "reg.status", "reg.rid", "reg.dmg", "reg.hdmg", "reg.arb", "reg.ledger_i", "reg.ledger_h", "reg.fresh",
-                      "create.accept", "create.schedule", "create.status", "create.rid"],
+                      "create.accept", "create.schedule", "create.status", "create.rid",
+                      "step.outcome", "step.clock", "step.status", "step.rid"],
                 monitors=[M.mon_c10], extra=X.extra_c10),
     "C11": dict(**_p(EV_FILES + ["Proofs/C07Proofs.v", "Proofs/C11Proofs.v"], ["Props/C11.v"], ["Layout", "Ctor"]),
                 theorems=["C11_ids_activate_holds", "C11_ids_start_holds", "C11_ids_ledgers_holds", "C11_ids_step_holds",
                           "C11_no_internal_error_holds", "C07_perm_holds"],
                 corr=["sched.status", "sched.rid", "sched.count", "reb.status", "reb.rid", "reb.count", "reb.blocks", "reb.carry",
                       "reb.ledger_i", "reb.ledger_h", "reb.dmg", "reb.hdmg", "deliver.rebuild_prod",
-                      "delta.capital", "delta.arbitrary", "events.error", "rec.oracle"] + CREATE_OBS,
+                      "delta.capital", "delta.arbitrary", "events.error", "rec.oracle"] + CREATE_OBS + STEP_OBS,
                 monitors=[M.mon_run_ok("C11"), M.mon_c08_as("C11"), M.mon_c07_as("C11")], extra=X.extra_c11),
 })
 
@@ -136,7 +140,7 @@ REGISTRY.update({
                 corr=["constraints", "orders", "production", "init.restoration", "init.inv_duration", "init.scalars"], monitors=[], extra=X.extra_c18),
     "C19": dict(**_p(RUN_FILES + ["Spec/StatementsShift.v", "Proofs/C19Aux.v", "Proofs/C19Proofs.v"], ["Props/C19.v"], ["Phases"]),
                 theorems=["C19_step_equivariant_holds", "C19_shift_holds"],
-                corr=["sched.status", "rec.status", "overprod", "phase.overprod", "phase.alpha_kept"], monitors=[], extra=X.extra_c19),
+                corr=["sched.status", "rec.status", "overprod", "phase.overprod", "phase.alpha_kept"] + STEP_OBS, monitors=[], extra=X.extra_c19),
     "C20": dict(**_p(EV_FILES + RUN_FILES + ["Spec/StatementsWF.v", "Spec/StatementsInit.v", "Proofs/C20Aux.v", "Proofs/C20Proofs.v",
                                           "Proofs/C20InitProofs.v"], ["Props/C20.v"], ["Divide"]),
                 theorems=["C20_wf_step_holds", "C20_wf_run_holds", "C20_obs_holds", "C20_wf_create_holds", "C20_wf_create_all_holds",
@@ -205,7 +209,7 @@ def evaluate(prop, spec, seed, tier, log):
     def is_tie(tag):
         ob = tag["ob"]
         fam = "reb" if ob.startswith("reb.") and not ob.startswith("reb.blocks") and not ob.startswith("reb.create") else \
-              ("rec" if ob.startswith("rec.") else None)
+              ("rec" if ob.startswith("rec.") else ("step" if ob.startswith("step.") else None))
         if fam is None or tag["scn"] not in by_id:
             return False
         if tag["scn"] not in tie_cache:
